@@ -204,6 +204,17 @@ func (m *Model) Step(e Ev) Result {
 			m.Ph = PhCancelled
 			return Result{Exp: ExpAccept, Cancelled: true, Why: "error reported"}
 		}
+		if (m.Ph == PhDeals && (e.Kind == EvErrResponse || e.Kind == EvErrKey)) || (m.Ph == PhResponses && e.Kind == EvErrKey) {
+			// deals are addressed to single participants: a participant who has all of
+			// his may report a failure of a later step while this node still collects
+			// deals (or, having missed the responses published meanwhile, still waits
+			// for responses); "a reported error puts the round into a cancelled state"
+			if !m.known(e.Pid) {
+				return Result{Exp: ExpReject, Why: "unknown participant"}
+			}
+			m.Ph = PhCancelled
+			return Result{Exp: ExpAccept, Cancelled: true, Why: "error of a later step reported to a node that is behind"}
+		}
 		if e.Kind != phaseEv[m.Ph] {
 			return Result{Exp: ExpReject, Why: "not acceptable in this phase"}
 		}
